@@ -61,6 +61,10 @@ type Def struct {
 	NumeralSystem num.NumeralSystem `json:"numeral_system"`
 }
 
+// defaultSubunits is the precision assumed in calculations when the currency
+// is not known; validation is expected to reject the unknown code.
+const defaultSubunits uint32 = 2
+
 // FormatOption defines how to configure the formatter for common
 // use cases and custom options.
 type FormatOption func(*Def, num.Formatter) num.Formatter
@@ -122,18 +126,27 @@ func (d *Def) FormatPercentage(percentage num.Percentage) string {
 // Zero provides the currency's zero amount which is pre-set with the
 // minimum precision for the currency.
 func (d *Def) Zero() num.Amount {
+	if d == nil {
+		return num.MakeAmount(0, defaultSubunits)
+	}
 	return num.MakeAmount(0, d.Subunits)
 }
 
 // Rescale takes the provided amount and ensures its scale matches
 // that of the currency.
 func (d *Def) Rescale(a num.Amount) num.Amount {
+	if d == nil {
+		return a.Rescale(defaultSubunits)
+	}
 	return a.Rescale(d.Subunits)
 }
 
 // RescaleUp ensures tha the amount has *at least* the same
 // precision as the currency.
 func (d *Def) RescaleUp(a num.Amount) num.Amount {
+	if d == nil {
+		return a.RescaleUp(defaultSubunits)
+	}
 	return a.RescaleUp(d.Subunits)
 }
 
